@@ -37,6 +37,10 @@ func asanChild(args []string) int {
 	defer f.Close()
 	var ops int64
 	st := newStats()
+	if os.Getenv("ENGLAB_ASAN_SELFTEST") == "1" {
+		f.WriteString("SEQ selftest\nselftest: Go read of freed C memory\n")
+		fmt.Fprintln(os.Stderr, "selftest read:", useAfterFree())
+	}
 	for i := from; i < from+n; i++ {
 		seq := genSequence(seed, i, 36)
 		// keep the log bounded: one sequence at a time
